@@ -33,8 +33,20 @@ def _scope_edits(c, ob, scan_from, name, dropcall, binder_stmt_start=None):
     cb = c.close(ob)
     stmts = _block_statements(c, ob)
     edits = []
+    # an explicit `drop(name);` among the statements of the scope IS the release: it becomes the drop call of this guard, exits
+    # before it are handled as usual, nothing is added after it
+    limit = cb
+    for (a, b) in stmts:
+        if a < scan_from:
+            continue
+        toks = [c.t(q) for q in range(a, b)]
+        if toks in (["drop", "(", name, ")", ";"], ["mem", "::", "drop", "(", name, ")", ";"], ["std", "::", "mem", "::", "drop", "(", name, ")", ";"]):
+            edits.append((c.pos(a), c.pos(b) if b < len(c) else len(c.text), dropcall + "\n"))
+            limit = a
+            break
+    explicit = limit != cb
     m = scan_from
-    while m < cb:
+    while m < limit:
         x = c.t(m)
         if x == "?" and c.kind(m) == "p":
             raise Unsupported("raii: `?` inside the scope of %s" % name)
@@ -51,6 +63,8 @@ def _scope_edits(c, ob, scan_from, name, dropcall, binder_stmt_start=None):
         if c.kind(m) == "id" and x in ("return", "break", "continue"):
             edits.append(_exit_edit(c, m, dropcall))
         m += 1
+    if explicit:
+        return edits
     if not stmts:
         edits.append((c.pos(cb), c.pos(cb), dropcall + "\n"))
         return edits
